@@ -640,6 +640,45 @@ def j7(rep, src):
                 rep.violation("J7", "%s::%s@inner-injection" % (f.self_ty, f.name), "%s::%s builds an inner injection the wrong way round: %s" % (f.self_ty, f.name, "; ".join(bad)), "src/%s:%d" % (IJ, m["l"]))
 
 
+def j8(rep, src):
+    """The per-variant tables of `impl Variant for DataType` cover every variant that carries a type."""
+    rep.rule(
+        "J8",
+        "`<DataType as Variant>::{minimal_subset, maximal_superset, try_empty}` dispatch to the variant's own method for EVERY variant of `enum DataType` that carries a payload "
+        "(listed in `for_all_variants!(.., [..], default)` or matched by an explicit `DataType::V(x)` arm): a variant left to the default arm gets Null / Any / an error instead of its own bound",
+        floor=40,
+        necessary="`a.into_variant(&b)` is `b.maximal_superset().and_then(|var| a.into_data_type(&var))`: with the variant of b left to the default arm the target is Any, the injection into Any is the "
+        "identity, and the 'converted type' is A itself although the converted values (date -> datetime) are not in it",
+    )
+    DT = "data_type/mod.rs"
+    enum = src.find_items("enum", name="DataType", file=DT)
+    if len(enum) != 1:
+        raise Anchor("enum DataType: expected one definition in %s" % DT)
+    payload = [v["name"] for v in enum[0][2]["variants"] if v["fields"]]
+    for name in ("minimal_subset", "maximal_superset", "try_empty"):
+        fs = [f for f in src.find_fns(file=DT, trait="Variant") if f.name == name and f.self_ty == "DataType" and f.body]
+        if len(fs) != 1:
+            raise Anchor("<DataType as Variant>::%s: expected one definition, found %d" % (name, len(fs)))
+        f = fs[0]
+        covered = set()
+        for x in walk(f.body):
+            if x.get("k") == "macro" and x.get("name") == "for_all_variants" and x.get("args"):
+                for a in x["args"]:
+                    if a.get("k") == "array":
+                        covered |= {path_of(e) for e in a["elems"] if path_of(e)}
+            if x.get("k") == "match":
+                for arm in x["arms"]:
+                    for pp in walk(arm["pat"]):
+                        segs = (pp.get("path") or {}).get("segs", []) if pp.get("k") == "tuplestruct" else []
+                        if len(segs) >= 2 and segs[-2] in ("DataType", "Self"):
+                            covered.add(segs[-1])
+        for v in payload:
+            key = "%s@%s" % (name, v)
+            rep.instance("J8", key, {"fn": name, "variant": v, "dispatched": v in covered}, nontrivial=False)
+            if v not in covered:
+                rep.violation("J8", key, "<DataType as Variant>::%s does not dispatch DataType::%s to the variant's own %s (it falls to the default arm)" % (name, v, name), f.where())
+
+
 # ------------------------------------------------------------------------------------------------ J3 (MIR)
 
 INT_BITS = {"i8": 8, "i16": 16, "i32": 32, "i64": 64, "i128": 128, "isize": 64, "u8": 8, "u16": 16, "u32": 32, "u64": 64, "u128": 128, "usize": 64}
@@ -950,6 +989,7 @@ def run(rep):
     j5(rep, src, mir)
     j6(rep, src, impls)
     j7(rep, src)
+    j8(rep, src)
     rep.extra["primitive_pairs"] = {"%s->%s" % k: v[0] for k, v in PAIRS.items()}
     from .util_enum import n1
 
